@@ -106,7 +106,10 @@ def real_sweep(ctx):
     kinds = ['any.json', 'any.multi', 'py', 'pypkg']
     present = [None, SRC - 1, SRC, SRC + 1]
     decoys = [(), ('dir',), ('otherext',), ('lower',), ('suffix',), ('dir', 'otherext', 'lower', 'suffix'), ('emptyext',)]
-    combos = list(itertools.product(kinds, present, decoys, [False, True]))
+    # for the multi-extension searcher also a copy under the *second* listed extension: absent / stale / fresh
+    seconds = [None, SRC - 1, SRC + 1]
+    combos = [c + (None,) for c in itertools.product(kinds, present, decoys, [False, True])]
+    combos += [('any.multi', mt, (), rb, sec) for mt in present for rb in (False, True) for sec in seconds[1:]]
 
     def fn(rec, shard, nshards, seed, tier, extra):
         from pysmi.searcher.anyfile import AnyFileSearcher
@@ -117,7 +120,7 @@ def real_sweep(ctx):
         open(probe, 'w').close()
         case_sensitive = not os.path.exists(os.path.join(base, 'caseprobe'))
         try:
-            for n, (kind, mt, decoy, rebuild) in enumerate(combos):
+            for n, (kind, mt, decoy, rebuild, second) in enumerate(combos):
                 if n % nshards != shard:
                     continue
                 pkgname = 'c10pkg_%d_%d' % (shard, n)
@@ -143,6 +146,8 @@ def real_sweep(ctx):
                     os.utime(p, (mtime, mtime))
                 if mt is not None:
                     mk(name + exts[0], mt)
+                if second is not None:
+                    mk(name + exts[1], second)
                 for dk in decoy:
                     if dk == 'dir':
                         if (name + exts[-1]) not in files:
@@ -178,7 +183,8 @@ def real_sweep(ctx):
                 rec.count('kind.' + kind)
                 rec.count('answer.' + got)
                 case = {'kind': kind, 'dest_mtime_minus_source': None if mt is None else mt - SRC, 'decoys': list(decoy),
-                        'rebuild': rebuild, 'exts': exts, 'files': sorted(files)}
+                        'rebuild': rebuild, 'exts': exts, 'files': sorted(files),
+                        'second_ext_mtime_minus_source': None if second is None else second - SRC}
                 if got != want:
                     raise Violation('searcher-answer', '%r: answered %s, expected %s' % (case, got, want), case)
                 if mt is not None or decoy:
